@@ -38,7 +38,7 @@ def run_ops(path, seed, idx, hashseed=None):
 def history(chk, ctx, rng, tier):
     from concurrent.futures import ThreadPoolExecutor
     path = ctx['scratch'] or ctx['repo']
-    nops = 28
+    nops = 30
     n_seq = 2 if tier == 'quick' else 8
     for s in range(n_seq):
         L = int(rng.integers(2, 41)) if tier == 'thorough' else int(rng.integers(8, 25))
@@ -295,7 +295,7 @@ def layout_isolated(chk, ctx, tier):
 
 def run(chk, ctx):
     tier = ctx['tier']; rng = common.Rng(ctx['seed'], 'C20')
-    chk.rule = ('(i) random interleavings (length 2-40, repeated calls) of 28 kinds of API calls vs each call in a fresh interpreter, results hashed bit-for-bit; '
+    chk.rule = ('(i) random interleavings (length 2-40, repeated calls) of 30 kinds of API calls vs each call in a fresh interpreter, results hashed bit-for-bit; '
                 '(ii) same sequence under several PYTHONHASHSEED values; (iii) C/F/strided/negatively-strided/transposed layouts of phi and of the grid for every integrator '
                 '(constant and time-dependent drivers, zero and positive duration), from_phi and Spectrum methods; (iv) byte comparison of every array/list argument before/after '
                 'and np.shares_memory(result, argument). non-trivial = distinct (clause, function, layout) keys')
